@@ -70,8 +70,17 @@ def c05_block(e1: int, p1: int, e2: int, p2: int, g2: int, d: int) -> bool:
         w.clock.watchdog = 5.0
         k.spawn_cost = S.get('spawn_cost', 0.001)
         warm = S.get('warm', 0)
+        stream_kw = {}
+        if S.get('streams'):
+            # captured output (fake pipes, see vtlib.world.pipes); every worker has a helper child that inherited the pipes,
+            # ignores the stop signal and outlives it: no EOF arrives when the worker dies
+            from vtlib.world import pipes as vpipes
+            k.pipes = vpipes.PipeTable(k)
+            base_beh = k.behaviour
+            k.behaviour = lambda i, argv: Beh(obey=base_beh(i, argv).obey, nchildren=1, child_obey=None)
+            stream_kw = dict(stdout_stream={'stream': (lambda data: None)}, stderr_stream={'stream': (lambda data: None)})
         wa = w.mk_watcher('a', numprocesses=S.get('n0', 2), graceful_timeout=_gt(), warmup_delay=warm,
-                          respawn=S.get('respawn', True))
+                          respawn=S.get('respawn', True), **stream_kw)
         wb = w.mk_watcher('b', numprocesses=1, graceful_timeout=_gt())
         extra = {}
         if S.get('on_demand'):
@@ -84,6 +93,11 @@ def c05_block(e1: int, p1: int, e2: int, p2: int, g2: int, d: int) -> bool:
             w.boot([wa, wb])
         if S.get('dmax', 0) > 0 and d > 0:
             k.injections.append({'at_call': k.calls + d, 'victim': ('nth', 0), 'status': core.status_signal(9)})
+        if S.get('eagain'):
+            # from now on every fork fails with EAGAIN (process table / RLIMIT_NPROC exhausted): a persistent condition
+            import errno as _errno
+            k.spawn_error_from = (k.spawn_attempts, OSError(_errno.EAGAIN, 'Resource temporarily unavailable'))
+            k.external_kill(k.alive_pids('a')[0])        # ... and a worker needs replacing
         sc = Sched(w)
         ok = True
         in_region = False
@@ -204,11 +218,15 @@ def plan(tier):
         sh.append({'e1': e, 'beh': 2, 'gt': 0})
     sh.append({'e1': 16, 'beh': 0, 'spawn_cost': 0.005})      # many spawns: fork/exec (5 ms each) must not pile up in one loop turn
     sh.append({'e1': 0, 'beh': 0, 'on_demand': True})          # a stopped on_demand watcher waiting for its first connection
+    for e in (3, 4, 6, 7, 11, 13):       # incr, decr, restart, reload, stop, kill: with captured output and a helper child holding the pipes
+        sh.append({'e1': e, 'beh': 0, 'streams': True})
+    for e in (0, 3, 6, 12):              # check, incr, restart, start while fork fails persistently with EAGAIN
+        sh.append({'e1': e, 'beh': 0, 'eagain': True})
     sh.append({'e1': 12, 'beh': 0, 'respawn': False})
     sh.append({'e1': 3, 'beh': 0, 'warm': 0.3})
     return [
         Cond('c05_block', shards=sh, budget=240 if q else 1500, twins=2,
              bounds={'e1': 'S: shard key over the %d-event menu' % len(EVENTS), 'e2': 'S: same menu', 'p1,p2': 'R[-1,2]',
                      'g2': 'S{now, 1 turn, quiescence}', 'probes': 'all of %r after every event' % (READONLY,), 'd': 'R[0,dmax]',
-                     'beh': 'S{obey, obey after 0.15 s, ignore}', 'graceful_timeout': 'S{0.3 s, 0}', 'warmup_delay': 'S{0, 0.3}'}),
+                     'beh': 'S{obey, obey after 0.15 s, ignore}', 'graceful_timeout': 'S{0.3 s, 0}', 'warmup_delay': 'S{0, 0.3}', 'streams': 'S: output captured, a helper child keeps the pipes open', 'eagain': 'S: every fork fails with EAGAIN from now on'}),
     ]
